@@ -75,6 +75,12 @@ CLAIMED = {
         "Trusts the reference implementations in pbt/oracles/graphs.py; positive integer node weights only.",
         "DESIGN.md 3 C17",
     ),
+    "C18": (
+        "Hypothesis op-lists that drive TaskGraphs into reachable state mixtures through the public API, queried under all lookahead/retract/release_taskgraphs/branch-policy combinations (validity + metamorphic subset relations), plus every offer recorded in generated EDF/FIFO/LSF runs",
+        "Validity predicates (released tasks offered, finished/placed tasks not offered), metamorphic relations (offer monotone in lookahead and in release_taskgraphs), a release-on-completion reference rule, and the no-early-offer predicate on real greedy runs. Exploration.",
+        "No preemption; RANDOM branch policy excluded from subset relations.",
+        "DESIGN.md 3 C18",
+    ),
 }
 
 NOT_YET = "check not built yet in this snapshot of /verif (construction in progress; see DESIGN.md section 3)"
